@@ -218,7 +218,7 @@ CLAIMS["C03"] = dict(
           "[pos, +bkt_size), position advanced once), DEPTH-ADVANCE (depth + k*stack size for the k-byte radix, final-bucket LCP run), BUCKET-RANGE, STEP-BUCKET0, PREFIX-SUM-USE, "
           "BKT-INDEX-BOUND, FALLBACK-FORWARD, FALLBACK-DAG, KEY-PACK-TABLE, CHAR-UNSIGNED, LCP-SLOT0, INSSORT-TWINS, ENTRY-FORWARD."),
     note=(TRUST + "Thin by nature: the property itself (output order, permutation, LCP values) depends on string contents. CharStringSet (signed char) is not reachable from the public API and not analysed. "
-          "BKT-INDEX-BOUND (forward interval analysis of the index variables of the fixed-size bucket arrays) found a one-past-the-end read in the LCP boundary loops of RadixStep_CE0/CE2/CI2 (fixed in /repo, 8c2799d)."),
+          "BKT-INDEX-BOUND (forward interval analysis of the index variables of the fixed-size bucket arrays) found a one-past-the-end read in the LCP boundary loops of RadixStep_CE0/CE2/CI2 (fixed in /repo, 4243a1b)."),
 )
 
 NOT_APPLICABLE = {}
